@@ -178,7 +178,37 @@ func (g *zgen) jsonObj(depth int) string {
 // snippet emits a few lines that display something.
 func (g *zgen) snippet(lines *[]string, usesJSON *bool) {
 	add := func(s string) { *lines = append(*lines, s) }
-	switch g.t.Draw(12) {
+	switch g.t.Draw(13) {
+	case 12: // deeply nested values (linked lists of dictionaries) that differ in one node: depth is a size like any other
+		depth := []int{3, 30, 63, 64, 65, 66, 100, 200}[g.t.Draw(8)]
+		diffAt := g.t.Draw(depth)
+		chain := func(diff bool) string {
+			var sb strings.Builder
+			for i := 0; i < depth; i++ {
+				mark := "t"
+				if diff && i == diffAt {
+					mark = "T"
+				}
+				fmt.Fprintf(&sb, "【“标” = “%s”，“下” = ", mark)
+			}
+			sb.WriteString("空")
+			for i := depth - 1; i >= 0; i-- {
+				fmt.Fprintf(&sb, "，“值” = %d】", i)
+			}
+			return sb.String()
+		}
+		a, b, c := g.v(), g.v(), g.v()
+		add(fmt.Sprintf("令%s = %s", a, chain(false)))
+		add(fmt.Sprintf("令%s = %s", b, chain(true)))
+		add(fmt.Sprintf("令%s = %s", c, chain(false)))
+		add(fmt.Sprintf("（显示：%s 为 %s）", a, b))
+		add(fmt.Sprintf("（显示：%s 不为 %s）", a, b))
+		r1, r2, r3 := g.v(), g.v(), g.v()
+		add(fmt.Sprintf("令%s = 以【%s，%s】（包含：%s）", r1, b, c, a))
+		add(fmt.Sprintf("令%s = 以【%s】（寻找：%s）", r2, b, a))
+		add(fmt.Sprintf("令%s = 以【%s】（包含：%s）", r3, b, a))
+		add(fmt.Sprintf("（显示：%s、%s、%s）", r1, r2, r3))
+		add(fmt.Sprintf("（显示：%s 为 %s）", a, c))
 	case 11: // the same list / dictionary element reachable under two entries (by-reference paths: 写入, a variable used twice in a literal)
 		*usesJSON = true
 		l, d := g.v(), g.v()
